@@ -1206,12 +1206,15 @@ def op_tables(ctx, rep, rule):
         short = nm.split(" as ")[0].lstrip("<")
         rep.check(rule, short + "::push_ber|order", okr, "self.vars.iter().rev() into the back-to-front buffer", "varbinds are not pushed in reverse: the wire order differs from "
                   "the requested order", body.loc(), obligation=True)
-        loops = cfg.natural_loops(body)
-        inl = set()
-        for h, bl in loops.items():
-            inl |= bl
-        seq = [(callee_path(b.term) or "") for b in sorted(body.calls(), key=lambda b: cfg.rpo(body).index(b.idx) if b.idx in cfg.rpo(body) else 0) if b.idx in inl and
-               ("push_ber" in (callee_path(b.term) or "") or "push_tag_len" in (callee_path(b.term) or ""))]
+        # the per-varbind code: the loop of this body (or the closure handed to for_each / try_for_each) that pushes the OID
+        def pushes(bd, only=None):
+            order = cfg.rpo(bd)
+            return [(callee_path(b.term) or "") for b in sorted(bd.calls(), key=lambda b: order.index(b.idx) if b.idx in order else 0)
+                    if (only is None or b.idx in only) and ("push_ber" in (callee_path(b.term) or "") or "push_tag_len" in (callee_path(b.term) or ""))]
+        cands = [pushes(body, bl) for h, bl in cfg.natural_loops(body).items()]
+        cands += [pushes(c) for c in facts.closures_of(body.path)]
+        cands = [c for c in cands if any("SnmpOid" in x or "SnmpNull" in x for x in c)]
+        seq = cands[0] if len(cands) == 1 else [x for c in cands for x in c]
         okv = len(seq) == 3 and "SnmpNull" in seq[0] and "SnmpOid" in seq[1] and seq[2].endswith("push_tag_len")
         rep.check(rule, short + "::push_ber|varbind", okv, "NULL, then the OID, then the SEQUENCE header (back to front)", "a varbind is serialised as %s" % [s.split("::")[-2:] for s in seq],
                   body.loc(), obligation=True)
